@@ -50,6 +50,12 @@ func (d *Decoder) ExpectTypesInInterface(types ...reflect.Type) {
 	d.expectedTypes = types
 }
 
+// ExpectedTypes returns hints which were set by ExpectTypesInInterface and were not used yet. Decoders of
+// wrapping objects (like gzip_packed) must pass them to decoder of wrapped data.
+func (d *Decoder) ExpectedTypes() []reflect.Type {
+	return d.expectedTypes
+}
+
 func (d *Decoder) read(buf []byte) {
 	if d.err != nil {
 		return
